@@ -2916,4 +2916,676 @@ theorem C09_aggr_number_integer_spelling_witness :
 
 end Aggregates
 
+/-! ## anywhere in a stream, either state of `skipws`
+
+`STEPattribute::STEPread` is called by the file reader in the middle of a record, and after a STRING attribute has been read
+the stream's `skipws` flag is off for the rest of the instance.  The never-silent statements hold there unchanged: proved
+here from the mid-stream reader lemmas of `AggrLemmas.lean` for a stream `G l0 input sk` — any consumed side, any `skipws`. -/
+
+section Anywhere
+open StepModel.P21.RLemmas StepModel.P21.AggrLemmas
+
+theorem C09_never_silent_integer_anywhere {F} (ops : FloatOps F) (cfg : LexCfg) (hcfg : cfg.intReportsFail = true)
+    (hcfg2 : cfg.dollarKeepsError = true) (lookup : Int → RefLookup) (nullable : Bool)
+    (input l0 : List Byte) (sk : Bool) (r : ReadResult F)
+    (h : attrRead ops cfg lookup .integer nullable (G l0 input sk) = .ok r) (hne : NoErr r.sev) :
+    (∃ sp1 tok sp2, input = sp1 ++ tok ++ sp2 ++ r.s.right ∧ sp1.all isSpace = true ∧ Between cfg sp2 ∧
+        isInteger tok = true ∧ longMin ≤ denoteInteger tok ∧ denoteInteger tok ≤ longMax ∧
+        r.val = intValue (some (denoteInteger tok)) ∧ intSentinel cfg (some (denoteInteger tok)) = false ∧
+        AtDelimOrEnd cfg r.s.right) ∨
+    (nullable = true ∧ r.val = .unset ∧ ∃ sp1 c t, input = sp1 ++ c :: t ∧ sp1.all isSpace = true ∧
+        ((c = 36 ∧ ∃ sp2, t = sp2 ++ r.s.right ∧ Between cfg sp2 ∧ AtDelimOrEnd cfg r.s.right) ∨
+         ((c = 44 ∨ c = 41) ∧ r.s.right = c :: t))) ∨
+    (input.all isSpace = true ∧ r.val = .unset) := by
+  obtain ⟨sp1, body, h1, h2, h3, h4⟩ := dropSpaces_split l0 input
+  rcases h4 with rfl | ⟨c, t, rfl, hc⟩
+  · right; right
+    simp at h1; subst h1
+    have hws := ws_blank l0 input sk h2
+    simp only [attrRead, hws] at h
+    simp [IStream.peekC, IStream.peek, IStream.sentry, IStream.good, readInteger, IStream.ws, IStream.extractLong, IStream.failed,
+      checkRemainingInput, intValue] at h
+    subst h
+    exact ⟨h2, rfl⟩
+  · subst h1
+    by_cases h36 : c = 36
+    · subst h36
+      rw [attrRead_dollar_at_sk ops cfg lookup .integer nullable l0 sp1 t sk h2] at h
+      simp only [Outcome.ok.injEq] at h
+      have hch := cri_char cfg (G (36 :: (sp1.reverse ++ l0)) t sk) Sev.null rfl
+      subst h
+      cases nullable with
+      | false => simp [NoErr] at hne
+      | true =>
+        simp only [hcfg2, if_true] at hne ⊢
+        right; left
+        have := hch.2 hne
+        simp at this
+        obtain ⟨sp2, hs2, ht, _, hat⟩ := this
+        exact ⟨by simp, by simp, sp1, 36, t, rfl, h2, Or.inl ⟨rfl, sp2, ht, hs2, hat⟩⟩
+    · by_cases hdl : c = 44 ∨ c = 41
+      · rw [attrRead_missing_at_sk ops cfg lookup .integer nullable l0 sp1 t sk c h2 hdl] at h
+        simp only [Outcome.ok.injEq] at h
+        subst h
+        cases nullable with
+        | false => simp [NoErr] at hne
+        | true => right; left; exact ⟨rfl, rfl, sp1, c, t, rfl, h2, Or.inr ⟨hdl, rfl⟩⟩
+      · have hcond : (c == 36 || c == 44 || c == 41) = false := by
+          simp at hdl ⊢; exact ⟨⟨h36, hdl.1⟩, hdl.2⟩
+        have hpre := ws_good l0 sp1 c t sk h2 hc
+        simp only [attrRead, hpre, peekC_good, hcond, Bool.false_eq_true, if_false] at h
+        generalize hR : readInteger cfg (some attrDelims) (G (sp1.reverse ++ l0) (c :: t) sk) .null = R at h
+        obtain ⟨o, s', e⟩ := R
+        simp only [Outcome.ok.injEq] at h
+        subst h
+        obtain ⟨hsent, hne'⟩ := noErr_sentinelIf _ _ hne
+        have hs := readInteger_sound cfg hcfg (sp1.reverse ++ l0) c t sk hc (by rw [hR]; exact hne')
+        rw [hR] at hs
+        obtain ⟨tok, sp2, hsplit, _, hb2, htok, hlo, hhi, ho, hat⟩ := hs
+        simp only at hsplit ho hat hsent
+        subst ho
+        left
+        exact ⟨sp1, tok, sp2, by rw [List.append_assoc, List.append_assoc, ← List.append_assoc tok, ← hsplit], h2, hb2, htok, hlo, hhi, rfl, hsent, hat⟩
+
+theorem C09_never_silent_enum_anywhere {F} (ops : FloatOps F) (cfg : LexCfg) (hcfg : cfg.logicalRejectsUnset = true)
+    (hcfg2 : cfg.dollarKeepsError = true) (lookup : Int → RefLookup) (k : Kind) (hk : EnumLike k) (nullable : Bool)
+    (input : List Byte) (l0 : List Byte) (sk : Bool) (r : ReadResult F)
+    (h : attrRead ops cfg lookup k nullable (G l0 input sk) = .ok r) (hne : NoErr r.sev) :
+    (∃ sp1 name sp2 i, input = sp1 ++ 46 :: (name ++ 46 :: (sp2 ++ r.s.right)) ∧ sp1.all isSpace = true ∧ Between cfg sp2 ∧
+        name ≠ [] ∧ name.all pw = true ∧ findName k.enumKind.table (name.map toUpper) = some i ∧
+        k.enumKind.isUnsetIdx i = false ∧ r.val = .enum i ∧ AtDelimOrEnd cfg r.s.right) ∨
+    (nullable = true ∧ r.val = .unset ∧ ∃ sp1 c t, input = sp1 ++ c :: t ∧ sp1.all isSpace = true ∧
+        ((c = 36 ∧ ∃ sp2, t = sp2 ++ r.s.right ∧ Between cfg sp2 ∧ AtDelimOrEnd cfg r.s.right) ∨
+         ((c = 44 ∨ c = 41) ∧ r.s.right = c :: t))) ∨
+    (nullable = true ∧ input.all isSpace = true ∧ r.val = .unset) := by
+  obtain ⟨sp1, body, h1, h2, h3, h4⟩ := dropSpaces_split l0 input
+  rcases h4 with rfl | ⟨c, t, rfl, hc⟩
+  · -- nothing but blanks
+    simp at h1; subst h1
+    right; right
+    have hws : (G l0 input sk).ws = { left := input.reverse ++ l0, right := [], eof := true, skipws := sk } := by
+      simpa [IStream.ofBytes] using ws_blank l0 input sk h2
+    have : attrRead ops cfg lookup k nullable (G l0 input sk) =
+        .ok ⟨if nullable then .null else .incomplete, .unset, { left := input.reverse ++ l0, right := [], eof := true, fail := true, skipws := sk }⟩ := by
+      rcases hk with rfl | rfl | ⟨items, rfl⟩ <;> simp only [attrRead, hws] <;>
+        simp [IStream.peekC, IStream.peek, IStream.sentry, IStream.good, enumRead, readEnum, IStream.ws,
+          checkRemainingInput, enumValue, Sev.greater, Sev.toInt] <;> cases nullable <;> rfl
+    rw [this] at h
+    simp only [Outcome.ok.injEq] at h
+    subst h
+    cases nullable with
+    | false => simp [NoErr] at hne
+    | true => exact ⟨rfl, h2, rfl⟩
+  · subst h1
+    by_cases h36 : c = 36
+    · subst h36
+      rw [attrRead_dollar_at_sk ops cfg lookup k nullable l0 sp1 t sk h2] at h
+      simp only [Outcome.ok.injEq] at h
+      have hch := cri_char cfg { left := 36 :: (sp1.reverse ++ l0), right := t, skipws := sk } Sev.null rfl
+      subst h
+      cases nullable with
+      | false => simp [NoErr] at hne
+      | true =>
+        simp only [hcfg2, if_true] at hne ⊢
+        right; left
+        have := hch.2 hne
+        simp at this
+        obtain ⟨sp2, hs2, ht, _, hat⟩ := this
+        exact ⟨by simp, by simp, sp1, 36, t, rfl, h2, Or.inl ⟨rfl, sp2, ht, hs2, hat⟩⟩
+    · by_cases hdl : c = 44 ∨ c = 41
+      · rw [attrRead_missing_at_sk ops cfg lookup k nullable l0 sp1 t sk c h2 hdl] at h
+        simp only [Outcome.ok.injEq] at h
+        subst h
+        cases nullable with
+        | false => simp [NoErr] at hne
+        | true => right; left; exact ⟨rfl, rfl, sp1, c, t, rfl, h2, Or.inr ⟨hdl, rfl⟩⟩
+      · have hcond : (c == 36 || c == 44 || c == 41) = false := by
+          simp at hdl ⊢; exact ⟨⟨h36, hdl.1⟩, hdl.2⟩
+        rw [attrRead_enumlike_at_sk ops cfg lookup k hk nullable l0 sp1 t sk c h2 hc hcond] at h
+        simp only [Outcome.ok.injEq] at h
+        subst h
+        simp only at hne ⊢
+        have hc44 : c ≠ 44 := fun e => hdl (Or.inl e)
+        have hc41 : c ≠ 41 := fun e => hdl (Or.inr e)
+        generalize hq : enumRead cfg k.enumKind nullable { left := (sp1.reverse ++ l0), right := c :: t, skipws := sk } Sev.null = q at hne ⊢
+        have hqe : NoErr q.2.2 := by
+          rcases cri_mono cfg q.2.1 q.2.2 with hm | hm
+          · rw [hm] at hne; exact hne
+          · exact absurd hne hm
+        -- the severity ReadEnum itself reported is null, usermsg or incomplete
+        have hquiet : Quiet (readEnum cfg k.enumKind true { left := (sp1.reverse ++ l0), right := c :: t, skipws := sk } Sev.null).2.2 := by
+          rw [← hq] at hqe
+          simp only [enumRead] at hqe
+          by_cases hi : ((readEnum cfg k.enumKind true { left := (sp1.reverse ++ l0), right := c :: t, skipws := sk } Sev.null).2.2 == Sev.incomplete) = true
+          · right; right; simpa using hi
+          · have hi' : ((readEnum cfg k.enumKind true { left := (sp1.reverse ++ l0), right := c :: t, skipws := sk } Sev.null).2.2 == Sev.incomplete) = false := by
+              simpa using hi
+            simp only [hi', Bool.false_and, Bool.false_eq_true, if_false] at hqe
+            exact NoErr.quiet hqe
+        obtain ⟨name, rest, i, hct, hn1, hn2, hf, hu, hre⟩ :=
+          readEnum_noerr cfg k.enumKind (sp1.reverse ++ l0) c t sk hc hc44 hc41 hquiet
+        have hqv : q = (some i, { left := 46 :: (name.reverse ++ 46 :: (sp1.reverse ++ l0)), right := rest, skipws := sk }, Sev.null) := by
+          rw [← hq]; simp [enumRead, hre]
+        subst hqv
+        simp only at hne ⊢
+        have hch := (cri_char cfg { left := 46 :: (name.reverse ++ 46 :: (sp1.reverse ++ l0)), right := rest, skipws := sk } Sev.null rfl).2 hne
+        generalize checkRemainingInput cfg (some attrDelims) { left := 46 :: (name.reverse ++ 46 :: (sp1.reverse ++ l0)), right := rest, skipws := sk } Sev.null = X at hne hch ⊢
+        left
+        have hui := hu hcfg
+        simp at hch
+        obtain ⟨sp2, hs2, hrr, _, hat⟩ := hch
+        refine ⟨sp1, name, sp2, i, ?_, h2, hs2, hn1, hn2, hf, hui, by simp [enumValue, hui], hat⟩
+        rw [hct, hrr]
+
+
+theorem C09_never_silent_binary_anywhere {F} (ops : FloatOps F) (cfg : LexCfg) (hcfg : cfg.binaryRejectsEmpty = true)
+    (hcfg2 : cfg.dollarKeepsError = true) (lookup : Int → RefLookup) (nullable : Bool)
+    (input : List Byte) (l0 : List Byte) (sk : Bool) (r : ReadResult F)
+    (h : attrRead ops cfg lookup .binary nullable (G l0 input sk) = .ok r) (hne : NoErr r.sev) :
+    (∃ sp1 hex sp2, input = sp1 ++ 34 :: (hex ++ 34 :: (sp2 ++ r.s.right)) ∧ sp1.all isSpace = true ∧ Between cfg sp2 ∧
+        hex ≠ [] ∧ hex.all isXDigit = true ∧ r.val = .bin hex ∧ AtDelimOrEnd cfg r.s.right) ∨
+    (nullable = true ∧ r.val = .unset ∧ ∃ sp1 c t, input = sp1 ++ c :: t ∧ sp1.all isSpace = true ∧
+        ((c = 36 ∧ ∃ sp2, t = sp2 ++ r.s.right ∧ Between cfg sp2 ∧ AtDelimOrEnd cfg r.s.right) ∨
+         ((c = 44 ∨ c = 41) ∧ r.s.right = c :: t))) := by
+  obtain ⟨sp1, body, h1, h2, h3, h4⟩ := dropSpaces_split l0 input
+  rcases h4 with rfl | ⟨c, t, rfl, hc⟩
+  · -- nothing but blanks: ReadBinary reports INCOMPLETE
+    exfalso
+    simp at h1; subst h1
+    have hws : (G l0 input sk).ws = { left := input.reverse ++ l0, right := [], eof := true, skipws := sk } := by
+      simpa [IStream.ofBytes] using ws_blank l0 input sk h2
+    simp only [attrRead, hws] at h
+    simp [IStream.peekC, IStream.peek, IStream.sentry, IStream.good, readBinary, IStream.ws, checkRemainingInput] at h
+    subst h
+    exact greater_incomplete_err Sev.null hne
+  · subst h1
+    by_cases h36 : c = 36
+    · subst h36
+      rw [attrRead_dollar_at_sk ops cfg lookup .binary nullable l0 sp1 t sk h2] at h
+      simp only [Outcome.ok.injEq] at h
+      have hch := cri_char cfg { left := 36 :: (sp1.reverse ++ l0), right := t, skipws := sk } Sev.null rfl
+      subst h
+      cases nullable with
+      | false => simp [NoErr] at hne
+      | true =>
+        simp only [hcfg2, if_true] at hne ⊢
+        right
+        have := hch.2 hne
+        simp at this
+        obtain ⟨sp2, hs2, ht, _, hat⟩ := this
+        exact ⟨by simp, by simp, sp1, 36, t, rfl, h2, Or.inl ⟨rfl, sp2, ht, hs2, hat⟩⟩
+    · by_cases hdl : c = 44 ∨ c = 41
+      · rw [attrRead_missing_at_sk ops cfg lookup .binary nullable l0 sp1 t sk c h2 hdl] at h
+        simp only [Outcome.ok.injEq] at h
+        subst h
+        cases nullable with
+        | false => simp [NoErr] at hne
+        | true => right; exact ⟨rfl, rfl, sp1, c, t, rfl, h2, Or.inr ⟨hdl, rfl⟩⟩
+      · have hcond : (c == 36 || c == 44 || c == 41) = false := by
+          simp at hdl ⊢; exact ⟨⟨h36, hdl.1⟩, hdl.2⟩
+        have hpre : (G l0 (sp1 ++ c :: t) sk).ws = { left := (sp1.reverse ++ l0), right := c :: t, skipws := sk } := by
+          simpa [IStream.ofBytes] using ws_good l0 sp1 c t sk h2 hc
+        simp only [attrRead, hpre, peekC_good, hcond, Bool.false_eq_true, if_false, Outcome.ok.injEq] at h
+        subst h
+        simp only at hne ⊢
+        generalize hq : readBinary cfg true { left := (sp1.reverse ++ l0), right := c :: t, skipws := sk } Sev.null = q at hne ⊢
+        have hqe : NoErr q.2.2 := by
+          rcases cri_mono cfg q.2.1 q.2.2 with hm | hm
+          · rw [hm] at hne; exact hne
+          · exact absurd hne hm
+        rw [← hq] at hqe
+        obtain ⟨hex, rest, hct, hx1, hx2, hre⟩ := readBinary_noerr cfg hcfg (sp1.reverse ++ l0) c t sk hc hqe
+        rw [hre] at hq
+        subst hq
+        simp only at hne ⊢
+        have hch := (cri_char cfg { left := 34 :: (hex.reverse ++ 34 :: (sp1.reverse ++ l0)), right := rest, skipws := sk } Sev.null rfl).2 hne
+        generalize checkRemainingInput cfg (some attrDelims) { left := 34 :: (hex.reverse ++ 34 :: (sp1.reverse ++ l0)), right := rest, skipws := sk } Sev.null = X at hne hch ⊢
+        left
+        simp at hch
+        obtain ⟨sp2, hs2, hrr, _, hat⟩ := hch
+        have hxe : hex.isEmpty = false := by cases hex <;> simp_all
+        refine ⟨sp1, hex, sp2, ?_, h2, hs2, hx1, hx2, by simp [hxe], hat⟩
+        rw [hct, hrr]
+
+
+theorem C09_never_silent_string_anywhere {F} (ops : FloatOps F) (cfg : LexCfg) (hcfg2 : cfg.dollarKeepsError = true)
+    (lookup : Int → RefLookup) (nullable : Bool) (input : List Byte) (l0 : List Byte) (sk : Bool) (r : ReadResult F)
+    (h : attrRead ops cfg lookup .string nullable (G l0 input sk) = .ok r) (hne : NoErr r.sev) :
+    (∃ sp1 tok sp2, input = sp1 ++ tok ++ sp2 ++ r.s.right ∧ sp1.all isSpace = true ∧ Between cfg sp2 ∧
+        isStringLenient tok = true ∧ r.val = .str tok ∧ AtDelimOrEnd cfg r.s.right) ∨
+    (nullable = true ∧ r.val = .unset ∧ ∃ sp1 c t, input = sp1 ++ c :: t ∧ sp1.all isSpace = true ∧
+        ((c = 36 ∧ ∃ sp2, t = sp2 ++ r.s.right ∧ Between cfg sp2 ∧ AtDelimOrEnd cfg r.s.right) ∨
+         ((c = 44 ∨ c = 41) ∧ r.s.right = c :: t))) := by
+  obtain ⟨sp1, body, h1, h2, h3, h4⟩ := dropSpaces_split l0 input
+  rcases h4 with rfl | ⟨c, t, rfl, hc⟩
+  · exfalso
+    simp at h1; subst h1
+    have hws : (G l0 input sk).ws = { left := input.reverse ++ l0, right := [], eof := true, skipws := sk } := by
+      simpa [IStream.ofBytes] using ws_blank l0 input sk h2
+    simp only [attrRead, hws] at h
+    simp [IStream.peekC, IStream.peek, IStream.sentry, IStream.good, stringRead, getLiteralStr, IStream.setSkipws, IStream.ws,
+      checkRemainingInput] at h
+    subst h
+    exact greater_incomplete_err Sev.null hne
+  · subst h1
+    by_cases h36 : c = 36
+    · subst h36
+      rw [attrRead_dollar_at_sk ops cfg lookup .string nullable l0 sp1 t sk h2] at h
+      simp only [Outcome.ok.injEq] at h
+      have hch := cri_char cfg { left := 36 :: (sp1.reverse ++ l0), right := t, skipws := sk } Sev.null rfl
+      subst h
+      cases nullable with
+      | false => simp [NoErr] at hne
+      | true =>
+        simp only [hcfg2, if_true] at hne ⊢
+        right
+        have := hch.2 hne
+        simp at this
+        obtain ⟨sp2, hs2, ht, _, hat⟩ := this
+        exact ⟨by simp, by simp, sp1, 36, t, rfl, h2, Or.inl ⟨rfl, sp2, ht, hs2, hat⟩⟩
+    · by_cases hdl : c = 44 ∨ c = 41
+      · rw [attrRead_missing_at_sk ops cfg lookup .string nullable l0 sp1 t sk c h2 hdl] at h
+        simp only [Outcome.ok.injEq] at h
+        subst h
+        cases nullable with
+        | false => simp [NoErr] at hne
+        | true => right; exact ⟨rfl, rfl, sp1, c, t, rfl, h2, Or.inr ⟨hdl, rfl⟩⟩
+      · have hcond : (c == 36 || c == 44 || c == 41) = false := by
+          simp at hdl ⊢; exact ⟨⟨h36, hdl.1⟩, hdl.2⟩
+        have hpre : (G l0 (sp1 ++ c :: t) sk).ws = { left := (sp1.reverse ++ l0), right := c :: t, skipws := sk } := by
+          simpa [IStream.ofBytes] using ws_good l0 sp1 c t sk h2 hc
+        simp only [attrRead, hpre, peekC_good, hcond, Bool.false_eq_true, if_false, Outcome.ok.injEq, stringRead,
+          IStream.setSkipws, getLiteralStr, ws_good0 _ _ _ _ hc, IStream.good, Bool.not_false, Bool.and_self, Bool.not_true] at h
+        by_cases hq : c = 39
+        · subst hq
+          simp only [beq_self_eq_true, if_true] at h
+          obtain ⟨m, hm1, hm2, hm3, hm4, hm5, hm6⟩ := litLoop_spec [39] true t (by simp)
+          generalize hll : litLoop [39] true t = ll at h hm1 hm2 hm3 hm4 hm5 hm6
+          obtain ⟨srev, rest, esc, hitEnd⟩ := ll
+          simp only at h hm1 hm2 hm3 hm4 hm5 hm6
+          subst hm2
+          have hne' : (m.reverse ++ [39]).reverse.isEmpty = false := by simp
+          simp only [hne', Bool.false_eq_true, if_false] at h
+          subst h
+          simp only at hne ⊢
+          cases esc with
+          | true =>
+            exfalso
+            simp only [if_true] at hne
+            rcases cri_mono cfg _ (Sev.null.greater Sev.inputError) with hmm | hmm
+            · rw [hmm] at hne; exact greater_inputError_err _ hne
+            · exact hmm hne
+          | false =>
+            simp only [Bool.false_eq_true, if_false] at hne ⊢
+            have hmne : m ≠ [] := by
+              intro hm; have := hm6 hm; cases this
+            have hch := (cri_char cfg { left := m.reverse ++ [39] ++ (sp1.reverse ++ l0), right := rest, eof := hitEnd, skipws := false } Sev.null rfl).2 hne
+            generalize checkRemainingInput cfg (some attrDelims)
+              { left := m.reverse ++ [39] ++ (sp1.reverse ++ l0), right := rest, eof := hitEnd, skipws := false } Sev.null = X at hne hch ⊢
+            left
+            have hlast : m.getLast? = some 39 := by
+              have := hm3 rfl
+              cases hmr : m.reverse with
+              | nil => simp at hmr; exact absurd hmr hmne
+              | cons a u =>
+                rw [hmr] at this
+                simp at this
+                have : m = (a :: u).reverse := by rw [← hmr]; simp
+                rw [this]; simp; assumption
+            have hlen : isStringLenient ((m.reverse ++ [39]).reverse) = true := by
+              simp [isStringLenient, hlast]
+            rcases hch with ⟨heof, hsame⟩ | ⟨heof, sp2, hs2, hrr, _, hat⟩
+            · simp only at heof
+              subst heof
+              have hre : rest = [] := hm4 rfl
+              subst hre
+              refine ⟨sp1, (m.reverse ++ [39]).reverse, [], ?_, h2, Between.nil cfg, hlen, rfl, ?_⟩
+              · rw [hsame]; simp [hm1]
+              · rw [hsame]; exact Or.inl rfl
+            · simp only at hrr
+              refine ⟨sp1, (m.reverse ++ [39]).reverse, sp2, ?_, h2, hs2, hlen, rfl, hat⟩
+              rw [hm1, hrr]; simp
+        · exfalso
+          have hq' : (c == 39) = false := by simpa using hq
+          simp only [hq', Bool.false_eq_true, if_false, List.isEmpty_nil, if_true] at h
+          subst h
+          simp only at hne
+          rcases cri_mono cfg _ (Sev.null.greater Sev.incomplete) with hmm | hmm
+          · rw [hmm] at hne; exact greater_incomplete_err _ hne
+          · exact hmm hne
+
+
+theorem C09_never_silent_real_anywhere {F} (ops : FloatOps F) (cfg : LexCfg) (hcfg : cfg.realReportsFail = true)
+    (hcfg2 : cfg.dollarKeepsError = true)
+    (lookup : Int → RefLookup) (nullable : Bool) (input : List Byte) (l0 : List Byte) (sk : Bool) (hfirst : FirstByteNot input (quietFirst cfg.realFailUnlessBlank cfg)) (r : ReadResult F)
+    (h : attrRead ops cfg lookup .real nullable (G l0 input sk) = .ok r) (hne : NoErr r.sev) :
+    (∃ sp1 tok sp2 d v, input = sp1 ++ tok ++ sp2 ++ r.s.right ∧ sp1.all isSpace = true ∧ Between cfg sp2 ∧
+        isReal tok = true ∧ denoteReal tok = some d ∧ ops.ofDecimal d = some v ∧
+        r.val = realValue ops (some v) ∧ (cfg.realNullReported && ops.isRealNull v) = false ∧
+        AtDelimOrEnd cfg r.s.right) ∨
+    (nullable = true ∧ r.val = .unset ∧ ∃ sp1 c t, input = sp1 ++ c :: t ∧ sp1.all isSpace = true ∧
+        ((c = 36 ∧ ∃ sp2, t = sp2 ++ r.s.right ∧ Between cfg sp2 ∧ AtDelimOrEnd cfg r.s.right) ∨
+         ((c = 44 ∨ c = 41) ∧ r.s.right = c :: t))) ∨
+    (input.all isSpace = true ∧ r.val = .unset) := by
+  obtain ⟨sp1, body, h1, h2, h3, h4⟩ := dropSpaces_split l0 input
+  rcases h4 with rfl | ⟨c, t, rfl, hc⟩
+  · right; right
+    simp at h1; subst h1
+    have hws : (G l0 input sk).ws = { left := input.reverse ++ l0, right := [], eof := true, skipws := sk } := by
+      simpa [IStream.ofBytes] using ws_blank l0 input sk h2
+    simp only [attrRead, hws] at h
+    simp [IStream.peekC, IStream.peek, IStream.sentry, IStream.good, readReal, IStream.ws, checkRemainingInput, realValue] at h
+    subst h
+    try replace hne := (noErr_sentinelIf _ _ hne).2
+    exact ⟨h2, rfl⟩
+  · subst h1
+    by_cases h36 : c = 36
+    · subst h36
+      rw [attrRead_dollar_at_sk ops cfg lookup .real nullable l0 sp1 t sk h2] at h
+      simp only [Outcome.ok.injEq] at h
+      have hch := cri_char cfg { left := 36 :: (sp1.reverse ++ l0), right := t, skipws := sk } Sev.null rfl
+      subst h
+      try replace hne := (noErr_sentinelIf _ _ hne).2
+      cases nullable with
+      | false => simp [NoErr] at hne
+      | true =>
+        simp only [hcfg2, if_true] at hne ⊢
+        right; left
+        have := hch.2 hne
+        simp at this
+        obtain ⟨sp2, hs2, ht, _, hat⟩ := this
+        exact ⟨by simp, by simp, sp1, 36, t, rfl, h2, Or.inl ⟨rfl, sp2, ht, hs2, hat⟩⟩
+    · by_cases hdl : c = 44 ∨ c = 41
+      · rw [attrRead_missing_at_sk ops cfg lookup .real nullable l0 sp1 t sk c h2 hdl] at h
+        simp only [Outcome.ok.injEq] at h
+        subst h
+        try replace hne := (noErr_sentinelIf _ _ hne).2
+        cases nullable with
+        | false => simp [NoErr] at hne
+        | true => right; left; exact ⟨rfl, rfl, sp1, c, t, rfl, h2, Or.inr ⟨hdl, rfl⟩⟩
+      · have hcond : (c == 36 || c == 44 || c == 41) = false := by
+          simp at hdl ⊢; exact ⟨⟨h36, hdl.1⟩, hdl.2⟩
+        have hcf := hfirst sp1 c t rfl h2 hc
+        have hgar : cfg.realFailUnlessBlank = false → delimAt cfg attrDelims c = false ∧ c ≠ 47 := fun hq =>
+          quietFirst_spec hq hcf (by simp at hdl; exact hdl.1) (by simp at hdl; exact hdl.2)
+        have hpre : (G l0 (sp1 ++ c :: t) sk).ws = { left := (sp1.reverse ++ l0), right := c :: t, skipws := sk } := by
+          simpa [IStream.ofBytes] using ws_good l0 sp1 c t sk h2 hc
+        simp only [attrRead, hpre, peekC_good, hcond, readReal, ws_good0 _ _ _ _ hc, IStream.good] at h
+        simp only [Bool.false_eq_true, if_false, Bool.not_false, Bool.and_self, Bool.not_true] at h
+        have happ := realCollect_append (c :: t)
+        have hsevs := realCollect_sev (c :: t)
+        have hshape := realCollect_null (c :: t)
+        generalize hrc : realCollect (c :: t) = rc at h happ hsevs hshape
+        obtain ⟨buf, rest, e⟩ := rc
+        simp only at h happ hsevs hshape
+        by_cases hov : (cfg.realBuf != 0 && decide (buf.length ≥ cfg.realBuf)) = true
+        · simp [hov] at h
+        · simp only [hov, Bool.false_eq_true, if_false] at h
+          cases hconv : ops.conv (scanFloat [] buf).1 with
+          | ok v =>
+            left
+            simp only [hconv, Outcome.ok.injEq] at h
+            subst h
+            have hsent := (noErr_sentinelIf _ _ hne).1
+            replace hne := (noErr_sentinelIf _ _ hne).2
+            simp only [realSentinel] at hsent
+            simp only at hne ⊢
+            -- the format severity must be null
+            have hen : NoErr (Sev.null.greater e) := by
+              rcases cri_mono cfg _ (Sev.null.greater e) with hm | hm
+              · rw [hm] at hne; exact hne
+              · exact absurd hne hm
+            have he := null_greater_noerr e hen hsevs
+            subst he
+            obtain ⟨sg, ip, fp, ex, hbuf, hsg, hip1, hip, hfp, hex⟩ := hshape rfl
+            subst hbuf
+            have hparse := parse_scanFloat_realText sg ip fp 69 ex hsg hip1 hip hfp (Or.inl rfl) hex
+            have hden := parse_realText sg ip fp 69 ex hsg hip1 hip hfp (Or.inl rfl) hex
+            -- unfold the conversion
+            have hof : ops.ofDecimal ⟨sg == [45], digitsVal (ip ++ fp) 0, exVal ex - (fp.length : Int)⟩ = some v := by
+              unfold FloatOps.conv at hconv
+              rw [hparse] at hconv
+              simp only at hconv
+              cases ho : ops.ofDecimal ⟨sg == [45], digitsVal (ip ++ fp) 0, exVal ex - (fp.length : Int)⟩ with
+              | none => rw [ho] at hconv; cases hconv
+              | some v' => rw [ho] at hconv; simp at hconv; rw [hconv]
+            have hch := (cri_char cfg { left := (realText sg ip fp 69 ex).reverse ++ (sp1.reverse ++ l0), right := rest, eof := rest.isEmpty, skipws := sk }
+              (Sev.null.greater Sev.null) rfl).2 hne
+            generalize checkRemainingInput cfg (some attrDelims)
+              { left := (realText sg ip fp 69 ex).reverse ++ (sp1.reverse ++ l0), right := rest, eof := rest.isEmpty, skipws := sk } (Sev.null.greater Sev.null) = X at hne hch ⊢
+            rcases hch with ⟨heof, hsame⟩ | ⟨heof, sp2, hsp2, hrr, _, hat⟩
+            · simp only at heof
+              have hre : rest = [] := by simpa using heof
+              subst hre
+              refine ⟨sp1, realText sg ip fp 69 ex, [], _, v, ?_, h2, Between.nil cfg, isReal_realText sg ip fp ex hsg hip1 hip hfp hex,
+                hden, hof, rfl, hsent, ?_⟩
+              · rw [hsame]; simp [← happ]
+              · rw [hsame]; exact Or.inl rfl
+            · simp only at hrr
+              refine ⟨sp1, realText sg ip fp 69 ex, sp2, _, v, ?_, h2, hsp2, isReal_realText sg ip fp ex hsg hip1 hip hfp hex,
+                hden, hof, rfl, hsent, hat⟩
+              rw [← happ, hrr]; simp
+          | invalid =>
+            exfalso
+            simp only [hconv, Outcome.ok.injEq, hcfg, Bool.true_and] at h
+            subst h
+            try replace hne := (noErr_sentinelIf _ _ hne).2
+            try simp only at hne
+            by_cases hrep : (cfg.realFailUnlessBlank || !buf.isEmpty) = true
+            · rw [hrep] at hne
+              rcases cri_mono cfg _ _ with hm | hm
+              · rw [hm] at hne; exact warnIf_true_err Sev.null hne
+              · exact hm hne
+            · have hrep' : cfg.realFailUnlessBlank = false ∧ buf = [] := by
+                cases hq : cfg.realFailUnlessBlank <;> cases buf <;> simp_all
+              obtain ⟨hq, hb⟩ := hrep'
+              subst hb
+              simp only [List.nil_append] at happ
+              subst happ
+              exact cri_garbage cfg _ c t false sk _ hc (hgar hq).1 (hgar hq).2 hne
+          | overflow =>
+            exfalso
+            simp only [hconv, Outcome.ok.injEq, hcfg, Bool.true_and] at h
+            subst h
+            try replace hne := (noErr_sentinelIf _ _ hne).2
+            try simp only at hne
+            by_cases hrep : (cfg.realFailUnlessBlank || !buf.isEmpty) = true
+            · rw [hrep] at hne
+              rcases cri_mono cfg _ _ with hm | hm
+              · rw [hm] at hne; exact warnIf_true_err Sev.null hne
+              · exact hm hne
+            · have hrep' : cfg.realFailUnlessBlank = false ∧ buf = [] := by
+                cases hq : cfg.realFailUnlessBlank <;> cases buf <;> simp_all
+              obtain ⟨hq, hb⟩ := hrep'
+              subst hb
+              simp only [List.nil_append] at happ
+              subst happ
+              exact cri_garbage cfg _ c t false sk _ hc (hgar hq).1 (hgar hq).2 hne
+
+
+theorem C09_never_silent_number_anywhere {F} (ops : FloatOps F) (cfg : LexCfg) (hcfg : cfg.numberReportsFail = true)
+    (hcfg2 : cfg.dollarKeepsError = true)
+    (lookup : Int → RefLookup) (nullable : Bool) (input : List Byte) (l0 : List Byte) (sk : Bool) (r : ReadResult F)
+    (h : attrRead ops cfg lookup .number nullable (G l0 input sk) = .ok r) (hne : NoErr r.sev) :
+    (∃ sp1 tok sp2 d v, input = sp1 ++ tok ++ sp2 ++ r.s.right ∧ sp1.all isSpace = true ∧ Between cfg sp2 ∧
+        denoteReal tok = some d ∧ ops.ofDecimal d = some v ∧
+        r.val = realValue ops (some v) ∧ (cfg.numberNullReported && ops.isRealNull v) = false ∧
+        AtDelimOrEnd cfg r.s.right) ∨
+    (nullable = true ∧ r.val = .unset ∧ ∃ sp1 c t, input = sp1 ++ c :: t ∧ sp1.all isSpace = true ∧
+        ((c = 36 ∧ ∃ sp2, t = sp2 ++ r.s.right ∧ Between cfg sp2 ∧ AtDelimOrEnd cfg r.s.right) ∨
+         ((c = 44 ∨ c = 41) ∧ r.s.right = c :: t))) ∨
+    (input.all isSpace = true ∧ r.val = .unset) := by
+  obtain ⟨sp1, body, h1, h2, h3, h4⟩ := dropSpaces_split l0 input
+  rcases h4 with rfl | ⟨c, t, rfl, hc⟩
+  · right; right
+    simp at h1; subst h1
+    have hws : (G l0 input sk).ws = { left := input.reverse ++ l0, right := [], eof := true, skipws := sk } := by
+      simpa [IStream.ofBytes] using ws_blank l0 input sk h2
+    simp only [attrRead, hws] at h
+    simp [IStream.peekC, IStream.peek, IStream.sentry, IStream.good, readNumber, IStream.ws, IStream.extractFloatText,
+      checkRemainingInput, realValue, IStream.failed, Sev.warnIf] at h
+    subst h
+    try replace hne := (noErr_sentinelIf _ _ hne).2
+    exact ⟨h2, rfl⟩
+  · subst h1
+    by_cases h36 : c = 36
+    · subst h36
+      rw [attrRead_dollar_at_sk ops cfg lookup .number nullable l0 sp1 t sk h2] at h
+      simp only [Outcome.ok.injEq] at h
+      have hch := cri_char cfg { left := 36 :: (sp1.reverse ++ l0), right := t, skipws := sk } Sev.null rfl
+      subst h
+      try replace hne := (noErr_sentinelIf _ _ hne).2
+      cases nullable with
+      | false => simp [NoErr] at hne
+      | true =>
+        simp only [hcfg2, if_true] at hne ⊢
+        right; left
+        have := hch.2 hne
+        simp at this
+        obtain ⟨sp2, hs2, ht, _, hat⟩ := this
+        exact ⟨by simp, by simp, sp1, 36, t, rfl, h2, Or.inl ⟨rfl, sp2, ht, hs2, hat⟩⟩
+    · by_cases hdl : c = 44 ∨ c = 41
+      · rw [attrRead_missing_at_sk ops cfg lookup .number nullable l0 sp1 t sk c h2 hdl] at h
+        simp only [Outcome.ok.injEq] at h
+        subst h
+        try replace hne := (noErr_sentinelIf _ _ hne).2
+        cases nullable with
+        | false => simp [NoErr] at hne
+        | true => right; left; exact ⟨rfl, rfl, sp1, c, t, rfl, h2, Or.inr ⟨hdl, rfl⟩⟩
+      · have hcond : (c == 36 || c == 44 || c == 41) = false := by
+          simp at hdl ⊢; exact ⟨⟨h36, hdl.1⟩, hdl.2⟩
+        have hpre : (G l0 (sp1 ++ c :: t) sk).ws = { left := (sp1.reverse ++ l0), right := c :: t, skipws := sk } := by
+          simpa [IStream.ofBytes] using ws_good l0 sp1 c t sk h2 hc
+        simp only [attrRead, hpre, peekC_good, hcond, readNumber, ws_good0 _ _ _ _ hc, extractFloatText_good_sk _ _ _ _ hc] at h
+        simp only [Bool.false_eq_true, if_false, Outcome.ok.injEq] at h
+        obtain ⟨hwf, happ, hscan⟩ := numSplit_spec (sp1.reverse ++ l0) (c :: t)
+        generalize hns : numSplit (c :: t) = ns at hwf happ hscan
+        obtain ⟨f, rest⟩ := ns
+        simp only at hwf happ hscan
+        rw [hscan] at h
+        simp only at h
+        cases hconv : ops.conv f.norm.text with
+        | ok v =>
+          left
+          simp only [hconv] at h
+          subst h
+          have hsent := (noErr_sentinelIf _ _ hne).1
+          replace hne := (noErr_sentinelIf _ _ hne).2
+          simp only [realSentinel] at hsent
+          simp only [IStream.failed, Bool.or_self, Bool.false_and, Sev.warnIf, Bool.false_eq_true, if_false] at hne ⊢
+          have hof : ∃ d, parseFloatText f.text = some d ∧ ops.ofDecimal d = some v := by
+            unfold FloatOps.conv at hconv
+            rw [parse_norm f hwf] at hconv
+            cases hp : parseFloatText f.text with
+            | none => rw [hp] at hconv; cases hconv
+            | some d =>
+              rw [hp] at hconv; simp only at hconv
+              cases ho : ops.ofDecimal d with
+              | none => rw [ho] at hconv; cases hconv
+              | some v' => rw [ho] at hconv; simp at hconv; exact ⟨d, rfl, by rw [ho, hconv]⟩
+          obtain ⟨d, hd1, hd2⟩ := hof
+          have hch := (cri_char cfg { left := f.text.reverse ++ (sp1.reverse ++ l0), right := rest, eof := rest.isEmpty, skipws := sk } Sev.null rfl).2 hne
+          generalize checkRemainingInput cfg (some attrDelims)
+            { left := f.text.reverse ++ (sp1.reverse ++ l0), right := rest, eof := rest.isEmpty, skipws := sk } Sev.null = X at hne hch ⊢
+          rcases hch with ⟨heof, hsame⟩ | ⟨heof, sp2, hsp2, hrr, _, hat⟩
+          · simp only at heof
+            have hre : rest = [] := by simpa using heof
+            subst hre
+            refine ⟨sp1, f.text, [], d, v, ?_, h2, Between.nil cfg, hd1, hd2, rfl, hsent, ?_⟩
+            · rw [hsame]; simp [happ]
+            · rw [hsame]; exact Or.inl rfl
+          · simp only at hrr
+            refine ⟨sp1, f.text, sp2, d, v, ?_, h2, hsp2, hd1, hd2, rfl, hsent, hat⟩
+            rw [happ, hrr]; simp
+        | invalid =>
+          exfalso
+          simp only [hconv, IStream.setFail, IStream.failed, Bool.or_true, Bool.true_or, hcfg, Bool.not_false, Bool.and_self] at h
+          subst h
+          try replace hne := (noErr_sentinelIf _ _ hne).2
+          rcases cri_mono cfg _ _ with hm | hm
+          · rw [hm] at hne; exact warnIf_true_err Sev.null hne
+          · exact hm hne
+        | overflow =>
+          exfalso
+          simp only [hconv, IStream.setFail, IStream.failed, Bool.or_true, Bool.true_or, hcfg, Bool.not_false, Bool.and_self] at h
+          subst h
+          try replace hne := (noErr_sentinelIf _ _ hne).2
+          rcases cri_mono cfg _ _ with hm | hm
+          · rw [hm] at hne; exact warnIf_true_err Sev.null hne
+          · exact hm hne
+
+
+
+theorem C09_never_silent_ref_anywhere {F} (ops : FloatOps F) (cfg : LexCfg) (hcfg2 : cfg.dollarKeepsError = true)
+    (lookup : Int → RefLookup) (nullable : Bool) (input : List Byte) (l0 : List Byte) (sk : Bool) (hfirst : FirstByteNot input (quietFirst cfg.refReportsNonRef cfg)) (r : ReadResult F)
+    (h : attrRead ops cfg lookup .ref nullable (G l0 input sk) = .ok r) (hne : NoErr r.sev) :
+    (∃ sp1 spx tok sp2, input = sp1 ++ 35 :: (spx ++ tok ++ sp2 ++ r.s.right) ∧ sp1.all isSpace = true ∧ spx.all isSpace = true ∧
+        Between cfg sp2 ∧ isInteger tok = true ∧ intMin ≤ denoteInteger tok ∧ denoteInteger tok ≤ intMax ∧
+        lookup (denoteInteger tok) = .found ∧ r.val = .ref (denoteInteger tok) ∧ AtDelimOrEnd cfg r.s.right) ∨
+    (nullable = true ∧ r.val = .unset ∧ ∃ sp1 c t, input = sp1 ++ c :: t ∧ sp1.all isSpace = true ∧
+        ((c = 36 ∧ ∃ sp2, t = sp2 ++ r.s.right ∧ Between cfg sp2 ∧ AtDelimOrEnd cfg r.s.right) ∨
+         ((c = 44 ∨ c = 41) ∧ r.s.right = c :: t))) ∨
+    (input.all isSpace = true ∧ r.val = .unset) := by
+  obtain ⟨sp1, body, h1, h2, h3, h4⟩ := dropSpaces_split l0 input
+  rcases h4 with rfl | ⟨c, t, rfl, hc⟩
+  · right; right
+    simp at h1; subst h1
+    have hws : (G l0 input sk).ws = { left := input.reverse ++ l0, right := [], eof := true, skipws := sk } := by
+      simpa [IStream.ofBytes] using ws_blank l0 input sk h2
+    simp only [attrRead, hws] at h
+    simp [IStream.peekC, IStream.peek, IStream.sentry, IStream.good, readEntityRef, IStream.ws, IStream.getChar,
+      IStream.putback, checkRemainingInput, IStream.clear, dropSpaces] at h
+    subst h
+    exact ⟨h2, rfl⟩
+  · subst h1
+    by_cases h36 : c = 36
+    · subst h36
+      rw [attrRead_dollar_at_sk ops cfg lookup .ref nullable l0 sp1 t sk h2] at h
+      simp only [Outcome.ok.injEq] at h
+      have hch := cri_char cfg { left := 36 :: (sp1.reverse ++ l0), right := t, skipws := sk } Sev.null rfl
+      subst h
+      cases nullable with
+      | false => simp [NoErr] at hne
+      | true =>
+        simp only [hcfg2, if_true] at hne ⊢
+        right; left
+        have := hch.2 hne
+        simp at this
+        obtain ⟨sp2, hs2, ht, _, hat⟩ := this
+        exact ⟨by simp, by simp, sp1, 36, t, rfl, h2, Or.inl ⟨rfl, sp2, ht, hs2, hat⟩⟩
+    · by_cases hdl : c = 44 ∨ c = 41
+      · rw [attrRead_missing_at_sk ops cfg lookup .ref nullable l0 sp1 t sk c h2 hdl] at h
+        simp only [Outcome.ok.injEq] at h
+        subst h
+        cases nullable with
+        | false => simp [NoErr] at hne
+        | true => right; left; exact ⟨rfl, rfl, sp1, c, t, rfl, h2, Or.inr ⟨hdl, rfl⟩⟩
+      · have hcond : (c == 36 || c == 44 || c == 41) = false := by
+          simp at hdl ⊢; exact ⟨⟨h36, hdl.1⟩, hdl.2⟩
+        have hcf := hfirst sp1 c t rfl h2 hc
+        have hgar : cfg.refReportsNonRef = false → delimAt cfg attrDelims c = false ∧ c ≠ 47 := fun hq =>
+          quietFirst_spec hq hcf (by simp at hdl; exact hdl.1) (by simp at hdl; exact hdl.2)
+        have hpre := ws_good l0 sp1 c t sk h2 hc
+        simp only [attrRead, hpre, peekC_good, hcond, Bool.false_eq_true, if_false] at h
+        generalize hR : readEntityRef cfg lookup (some attrDelims) (G (sp1.reverse ++ l0) (c :: t) sk) .null = R at h
+        obtain ⟨o, s', e⟩ := R
+        simp only [Outcome.ok.injEq] at h
+        subst h
+        have h44 : c ≠ 44 := by simp at hdl; exact hdl.1
+        have h41 : c ≠ 41 := by simp at hdl; exact hdl.2
+        obtain ⟨spx, tok, sp2, hsplit, hsx, hb2, htok, hlo, hhi, hfound, ho, hat⟩ :=
+          readEntityRef_sound_any cfg lookup (sp1.reverse ++ l0) c t sk hc h44 h41 hgar o s' e hR hne
+        subst ho
+        left
+        refine ⟨sp1, spx, tok, sp2, ?_, h2, hsx, hb2, htok, hlo, hhi, hfound, rfl, hat⟩
+        rw [hsplit]
+
+/-- the hypotheses of the `_anywhere` theorems hold for the scanners as the source has them now -/
+theorem C09_source_reports_everything :
+    Generated.lexCfg.intReportsFail = true ∧ Generated.lexCfg.realReportsFail = true ∧ Generated.lexCfg.numberReportsFail = true ∧
+    Generated.lexCfg.logicalRejectsUnset = true ∧ Generated.lexCfg.binaryRejectsEmpty = true ∧ Generated.lexCfg.dollarKeepsError = true := by
+  decide
+
+end Anywhere
+
 end StepModel.P21.C09
